@@ -21,8 +21,13 @@
 #include "opentelemetry/logs/severity.h"
 #include "opentelemetry/sdk/common/global_log_handler.h"
 #include "opentelemetry/sdk/instrumentationscope/scope_configurator.h"
+#include "opentelemetry/common/key_value_iterable_view.h"
 #include "opentelemetry/sdk/logs/batch_log_record_processor.h"
+#include "opentelemetry/sdk/logs/batch_log_record_processor_factory.h"
 #include "opentelemetry/sdk/logs/batch_log_record_processor_options.h"
+#include "opentelemetry/sdk/logs/batch_log_record_processor_runtime_options.h"
+#include "opentelemetry/sdk/logs/logger_context.h"
+#include "opentelemetry/sdk/logs/simple_log_record_processor_factory.h"
 #include "opentelemetry/sdk/logs/exporter.h"
 #include "opentelemetry/sdk/logs/logger_config.h"
 #include "opentelemetry/sdk/logs/logger_context_factory.h"
@@ -184,6 +189,52 @@ private:
   int flushed_ = 0;
 };
 
+// a processor that hands out no recordable (`addproc z`): MultiRecordable keeps a null child for it, every setter skips it and
+// MultiLogRecordProcessor::OnEmit has nothing to release to it; the other processors are not affected
+class NoRecordable final : public logs_sdk::LogRecordProcessor
+{
+public:
+  explicit NoRecordable(std::shared_ptr<Log> log) : log_(std::move(log)) {}
+  std::unique_ptr<logs_sdk::Recordable> MakeRecordable() noexcept override { return nullptr; }
+  void OnEmit(std::unique_ptr<logs_sdk::Recordable> &&) noexcept override { log_->on_emit++; }
+  bool ForceFlush(std::chrono::microseconds) noexcept override { return true; }
+  bool Shutdown(std::chrono::microseconds) noexcept override { return true; }
+
+private:
+  std::shared_ptr<Log> log_;
+};
+
+// the real processors through every constructor / factory overload; which one depends on the case (`rot`)
+static std::unique_ptr<logs_sdk::LogRecordProcessor> make_processor(char k,
+                                                                    std::unique_ptr<logs_sdk::LogRecordExporter> exp,
+                                                                    size_t rot)
+{
+  std::unique_ptr<logs_sdk::LogRecordProcessor> inner;
+  if (k == 's')
+  {
+    if (rot % 2 == 0) inner.reset(new logs_sdk::SimpleLogRecordProcessor(std::move(exp)));
+    else inner = logs_sdk::SimpleLogRecordProcessorFactory::Create(std::move(exp));
+    return inner;
+  }
+  logs_sdk::BatchLogRecordProcessorOptions o;
+  // exports when flushed; the timer is only a safety net: BatchLogRecordProcessor::ForceFlush re-polls with this
+  // period when its wake-up of the worker is lost (the worker was between its predicate check and its wait)
+  o.schedule_delay_millis = std::chrono::milliseconds(2000);
+  logs_sdk::BatchLogRecordProcessorRuntimeOptions ro;
+  switch (rot % 5)
+  {
+    case 1:
+      inner.reset(new logs_sdk::BatchLogRecordProcessor(std::move(exp), o.max_queue_size, o.schedule_delay_millis,
+                                                        o.max_export_batch_size));
+      break;
+    case 2: inner.reset(new logs_sdk::BatchLogRecordProcessor(std::move(exp), o, ro)); break;
+    case 3: inner = logs_sdk::BatchLogRecordProcessorFactory::Create(std::move(exp), o); break;
+    case 4: inner = logs_sdk::BatchLogRecordProcessorFactory::Create(std::move(exp), o, ro); break;
+    default: inner.reset(new logs_sdk::BatchLogRecordProcessor(std::move(exp), o)); break;
+  }
+  return inner;
+}
+
 // ---------------------------------------------------------------- persistent worker threads (thread-local context stacks)
 class Worker
 {
@@ -245,6 +296,9 @@ enum Kind
   K_TP,
   K_ATTRS,
   K_ATTRSV,
+  K_ATTRSS,  // common::MakeAttributes(span) / MakeAttributes({...}): span<const pair<string_view, AttributeValue>>
+  K_ATTRSI,  // common::MakeAttributes({{k, v}, ...}) for up to two pairs (an initializer list has a static size), else as K_ATTRSS
+  K_ATTRSW,  // common::MakeAttributes(container): a KeyValueIterableView<container> temporary
   K_BODY,
   K_BODYSV,
   K_BODYCS,
@@ -252,6 +306,7 @@ enum Kind
 };
 
 using PairVec = std::vector<std::pair<nostd::string_view, common::AttributeValue>>;
+using PairSpan = nostd::span<const std::pair<nostd::string_view, common::AttributeValue>>;
 
 // caller memory of one argument
 struct Cell
@@ -324,6 +379,9 @@ static bool parse_arg(const std::string &tok, Arg &a)
     vh::Attrs at;
     if (p[0] == "attrs") { a.kind = K_ATTRS; return at.parse(a.payload); }
     if (p[0] == "attrsb") { a.kind = K_ATTRSV; return at.parse(a.payload); }
+    if (p[0] == "attrss") { a.kind = K_ATTRSS; return at.parse(a.payload); }
+    if (p[0] == "attrsi") { a.kind = K_ATTRSI; return at.parse(a.payload); }
+    if (p[0] == "attrsw") { a.kind = K_ATTRSW; return at.parse(a.payload); }
     if (p[0] == "body") { a.kind = K_BODY; return v.parse(a.payload); }
     if (p[0] == "bodysv") { a.kind = K_BODYSV; return v.parse(a.payload) && v.tag == 's'; }
     if (p[0] == "bodystd") { a.kind = K_BODYSTD; return v.parse(a.payload) && v.tag == 's'; }
@@ -403,11 +461,11 @@ static void materialise(Arg &a, std::map<long, std::unique_ptr<Cell>> &cells)
 {
   if (a.buf < 0) return;
   std::unique_ptr<Cell> c(new Cell);
-  if (a.kind == K_ATTRS || a.kind == K_ATTRSV)
+  if (a.kind == K_ATTRS || a.kind == K_ATTRSV || a.kind == K_ATTRSS || a.kind == K_ATTRSI || a.kind == K_ATTRSW)
   {
     c->attrs.reset(new vh::Attrs);
     c->attrs->parse(a.payload);
-    if (a.kind == K_ATTRSV)
+    if (a.kind != K_ATTRS)
     {
       c->pairs.reset(new PairVec);
       for (auto &kv : c->attrs->kvs)
@@ -452,6 +510,21 @@ static void dispatch(F &&call, std::vector<Arg> &args, size_t i, Acc &&...acc)
       // a KeyValueIterable subclass must be passed as an rvalue for the generic trait's is_base_of overload to apply
       case K_ATTRS: dispatch(call, args, i + 1, std::forward<Acc>(acc)..., std::move(*a.cell->attrs)); break;
       case K_ATTRSV: dispatch(call, args, i + 1, std::forward<Acc>(acc)..., *a.cell->pairs); break;
+      case K_ATTRSS:
+        dispatch(call, args, i + 1, std::forward<Acc>(acc)..., common::MakeAttributes(PairSpan(*a.cell->pairs)));
+        break;
+      case K_ATTRSI:
+      {
+        // the initializer list's array lives until the end of the full expression, i.e. until `call` has returned
+        const PairVec &pv = *a.cell->pairs;
+        if (pv.empty()) dispatch(call, args, i + 1, std::forward<Acc>(acc)..., common::MakeAttributes({}));
+        else if (pv.size() == 1) dispatch(call, args, i + 1, std::forward<Acc>(acc)..., common::MakeAttributes({pv[0]}));
+        else if (pv.size() == 2)
+          dispatch(call, args, i + 1, std::forward<Acc>(acc)..., common::MakeAttributes({pv[0], pv[1]}));
+        else dispatch(call, args, i + 1, std::forward<Acc>(acc)..., common::MakeAttributes(PairSpan(pv)));
+        break;
+      }
+      case K_ATTRSW: dispatch(call, args, i + 1, std::forward<Acc>(acc)..., common::MakeAttributes(*a.cell->pairs)); break;
       case K_BODY:
       {
         common::AttributeValue v = a.cell->val->get();
@@ -510,6 +583,17 @@ static void dispatch1(F &&call, std::vector<Arg> &args, size_t i)
     case K_TP: call(a.tp); break;
     case K_ATTRS: call(std::move(*a.cell->attrs)); break;
     case K_ATTRSV: call(*a.cell->pairs); break;
+    case K_ATTRSS: call(common::MakeAttributes(PairSpan(*a.cell->pairs))); break;
+    case K_ATTRSI:
+    {
+      const PairVec &pv = *a.cell->pairs;
+      if (pv.empty()) call(common::MakeAttributes({}));
+      else if (pv.size() == 1) call(common::MakeAttributes({pv[0]}));
+      else if (pv.size() == 2) call(common::MakeAttributes({pv[0], pv[1]}));
+      else call(common::MakeAttributes(PairSpan(pv)));
+      break;
+    }
+    case K_ATTRSW: call(common::MakeAttributes(*a.cell->pairs)); break;
     case K_BODY:
     {
       common::AttributeValue v = a.cell->val->get();
@@ -539,6 +623,8 @@ static bool parse_op(const std::vector<std::string> &t, Op &op)
   op.kind = t[0];
   if ((op.kind == "push" || op.kind == "pushc") && t.size() == 3)
     return parse_small(t[1], 3, op.t) && parse_identity(t[2], op.tid, op.sid, op.fl);
+  // a context whose span entry carries no span: a null Span pointer, a null SpanContext pointer, a value of another type
+  if ((op.kind == "pushn" || op.kind == "pushnc" || op.kind == "pushx") && t.size() == 2) return parse_small(t[1], 3, op.t);
   if (op.kind == "pop" && t.size() == 2) return parse_small(t[1], 3, op.t);
   if (op.kind == "create" && t.size() == 4)
   {
@@ -599,7 +685,8 @@ static bool parse_op(const std::vector<std::string> &t, Op &op)
   if ((op.kind == "scribble" || op.kind == "free") && t.size() == 2) return parse_small(t[1], 100000, op.buf);
   if (op.kind == "flush" && t.size() == 1) return true;
   // a processor attached to the provider later: records created from then on reach it, records already in hand do not
-  if (op.kind == "addproc" && t.size() == 2 && (t[1] == "s" || t[1] == "b"))
+  // `n`: a null processor (ignored); `z`: a processor whose MakeRecordable returns null (it is handed nothing)
+  if (op.kind == "addproc" && t.size() == 2 && (t[1] == "s" || t[1] == "b" || t[1] == "n" || t[1] == "z"))
   {
     op.target = t[1];
     return true;
@@ -643,24 +730,18 @@ static std::string handle(const std::vector<std::string> &toks)
   // ---- pipeline
   std::vector<std::shared_ptr<Log>> logs;
   std::vector<std::unique_ptr<logs_sdk::LogRecordProcessor>> processors;
+  // which constructor / factory / GetLogger overload is used rotates with the case
+  const size_t rot = res.size() + 3 * procs.size() + sname.size() + 5 * sver.size() + 7 * sschema.size() + ops.size();
   for (char k : procs)
   {
     auto log = std::make_shared<Log>();
     std::unique_ptr<logs_sdk::LogRecordExporter> exp(new LogExporter(log));
-    std::unique_ptr<logs_sdk::LogRecordProcessor> inner;
-    if (k == 's') inner.reset(new logs_sdk::SimpleLogRecordProcessor(std::move(exp)));
-    else
-    {
-      logs_sdk::BatchLogRecordProcessorOptions o;
-      // exports when flushed; the timer is only a safety net: BatchLogRecordProcessor::ForceFlush re-polls with this
-      // period when its wake-up of the worker is lost (the worker was between its predicate check and its wait)
-      o.schedule_delay_millis = std::chrono::milliseconds(2000);
-      inner.reset(new logs_sdk::BatchLogRecordProcessor(std::move(exp), o));
-    }
+    auto inner = make_processor(k, std::move(exp), rot + logs.size());
     processors.emplace_back(new Counting(std::move(inner), log, k == 'b'));
     logs.push_back(log);
   }
   std::shared_ptr<logs_sdk::LoggerProvider> provider;
+  logs_sdk::LoggerContext *raw_context = nullptr;  // known only when the harness built the context itself
   {
     Exact rtag(res);
     auto resource = opentelemetry::sdk::resource::Resource::Create(
@@ -677,14 +758,43 @@ static std::string handle(const std::vector<std::string> &toks)
     else if (how == 3 && processors.size() == 1)
       provider = std::make_shared<logs_sdk::LoggerProvider>(std::move(processors[0]), resource, std::move(cfgr));
     else if (how == 4)
-      provider = F::Create(logs_sdk::LoggerContextFactory::Create(std::move(processors), resource, std::move(cfgr)));
+    {
+      auto lc     = logs_sdk::LoggerContextFactory::Create(std::move(processors), resource, std::move(cfgr));
+      raw_context = lc.get();
+      provider    = F::Create(std::move(lc));
+    }
     else provider = std::make_shared<logs_sdk::LoggerProvider>(std::move(processors), resource, std::move(cfgr));
   }
   nostd::shared_ptr<logs_api::Logger> on, off;
   {
     Exact a(sname), b(sver), d(sschema);
-    on  = provider->GetLogger("L", nostd::string_view(a.data(), a.size()), nostd::string_view(b.data(), b.size()),
-                              nostd::string_view(d.data(), d.size()));
+    nostd::string_view na(a.data(), a.size()), ve(b.data(), b.size()), su(d.data(), d.size());
+    logs_api::LoggerProvider *api = provider.get();
+    switch ((rot / 5) % 6)
+    {
+      case 1:  // no library name: the scope is named after the logger
+        on = provider->GetLogger(na, "", ve, su);
+        break;
+      case 2:  // the second request for the same logger returns the logger made by the first (another one in between)
+        provider->GetLogger("L", na, ve, su);
+        provider->GetLogger("M", "verif.other", ve, su);
+        on = provider->GetLogger("L", na, ve, su);
+        break;
+      case 3:  // scope attributes as an initializer list (api header overload)
+        on = api->GetLogger("L", na, ve, su, {{"verif.scope.attr", static_cast<int32_t>(7)}, {"verif.scope.s", "x"}});
+        break;
+      case 4:  // scope attributes as a key-value container (api header template)
+      {
+        PairVec pv{{"verif.scope.attr", common::AttributeValue(true)}};
+        on = api->GetLogger("L", na, ve, su, pv);
+        break;
+      }
+      case 5:  // the same logger name under another scope first: the look-up must tell them apart
+        provider->GetLogger("L", "verif.other", ve, su);
+        on = provider->GetLogger("L", na, ve, su);
+        break;
+      default: on = provider->GetLogger("L", na, ve, su); break;
+    }
     off = provider->GetLogger("L", "verif.disabled");
   }
   std::map<long, std::unique_ptr<Cell>> cells;
@@ -711,6 +821,15 @@ static std::string handle(const std::vector<std::string> &toks)
         else
           ctx = ctx.SetValue(trace_api::kSpanKey,
                              nostd::shared_ptr<trace_api::SpanContext>(new trace_api::SpanContext(sc2)));
+        w->tokens.push_back(context::RuntimeContext::Attach(ctx));
+      }
+      else if (op.kind == "pushn" || op.kind == "pushnc" || op.kind == "pushx")
+      {
+        context::Context ctx = context::RuntimeContext::GetCurrent();
+        if (op.kind == "pushn") ctx = ctx.SetValue(trace_api::kSpanKey, nostd::shared_ptr<trace_api::Span>(nullptr));
+        else if (op.kind == "pushnc")
+          ctx = ctx.SetValue(trace_api::kSpanKey, nostd::shared_ptr<trace_api::SpanContext>(nullptr));
+        else ctx = ctx.SetValue(trace_api::kSpanKey, static_cast<int64_t>(0x0102030405060708));
         w->tokens.push_back(context::RuntimeContext::Attach(ctx));
       }
       else if (op.kind == "pop")
@@ -764,7 +883,11 @@ static std::string handle(const std::vector<std::string> &toks)
               auto &c = *op.args[i].cell->val;
               return nostd::string_view(c.str->data(), c.str->size());
             };
-            auto at = [&](size_t i) -> const common::KeyValueIterable & { return *op.args[i].cell->attrs; };
+            auto at = [&](size_t i) -> const common::KeyValueIterable & {
+              return common::MakeAttributes(static_cast<const common::KeyValueIterable &>(*op.args[i].cell->attrs));
+            };
+            // const: with a non-const lvalue the variadic template Trace(ArgumentType&&...) would be the better match
+            auto ce = [&](size_t i) -> const logs_api::EventId & { return *op.args[i].eid; };
             const std::string &v = op.via;
             if (v == "v")
               dispatch1([&](auto &&...a) { BY_SEVERITY(sev, (std::forward<decltype(a)>(a)...)) }, op.args, 1);
@@ -772,7 +895,7 @@ static std::string handle(const std::vector<std::string> &toks)
             else if (v == "l4i") lg->Log(sev, op.args[1].eid->id_, sv(2), at(3));
             else if (v == "l3") lg->Log(sev, sv(1), at(2));
             else if (v == "l2") lg->Log(sev, sv(1));
-            else if (v == "w4e") { BY_SEVERITY(sev, (*op.args[1].eid, sv(2), at(3))) }
+            else if (v == "w4e") { BY_SEVERITY(sev, (ce(1), sv(2), at(3))) }
             else if (v == "w4i") { BY_SEVERITY(sev, (op.args[1].eid->id_, sv(2), at(3))) }
             else if (v == "w3") { BY_SEVERITY(sev, (sv(1), at(2))) }
             else { BY_SEVERITY(sev, (sv(1))) }
@@ -792,6 +915,9 @@ static std::string handle(const std::vector<std::string> &toks)
               records.erase(it);
             }
           }
+          // a null recordable handed to the provider's processor itself is ignored as well
+          if (op.target == "null" && raw_context != nullptr)
+            raw_context->GetProcessor().OnEmit(std::unique_ptr<logs_sdk::Recordable>());
           dispatch([&](auto &&...a) { lg->EmitLogRecord(std::move(rec), std::forward<decltype(a)>(a)...); }, op.args, 0);
         }
       }
@@ -806,19 +932,20 @@ static std::string handle(const std::vector<std::string> &toks)
     }
     else if (op.kind == "free") cells.erase(op.buf);  // destroys the caller's storage
     else if (op.kind == "flush") flush();
+    else if (op.kind == "addproc" && op.target == "n")
+      provider->AddProcessor(std::unique_ptr<logs_sdk::LogRecordProcessor>());
     else if (op.kind == "addproc")
     {
       auto log = std::make_shared<Log>();
-      std::unique_ptr<logs_sdk::LogRecordExporter> exp(new LogExporter(log));
-      std::unique_ptr<logs_sdk::LogRecordProcessor> inner;
-      if (op.target == "s") inner.reset(new logs_sdk::SimpleLogRecordProcessor(std::move(exp)));
+      if (op.target == "z")
+        provider->AddProcessor(std::unique_ptr<logs_sdk::LogRecordProcessor>(new NoRecordable(log)));
       else
       {
-        logs_sdk::BatchLogRecordProcessorOptions o;
-        o.schedule_delay_millis = std::chrono::milliseconds(2000);
-        inner.reset(new logs_sdk::BatchLogRecordProcessor(std::move(exp), o));
+        std::unique_ptr<logs_sdk::LogRecordExporter> exp(new LogExporter(log));
+        auto inner = make_processor(op.target[0], std::move(exp), rot + logs.size());
+        provider->AddProcessor(
+            std::unique_ptr<logs_sdk::LogRecordProcessor>(new Counting(std::move(inner), log, op.target == "b")));
       }
-      provider->AddProcessor(std::unique_ptr<logs_sdk::LogRecordProcessor>(new Counting(std::move(inner), log, op.target == "b")));
       logs.push_back(log);
       late_kinds.push_back(op.target[0]);
     }
